@@ -101,6 +101,41 @@ static unsigned long scenario(int sc, config_t *cfg)
   return digest(config_root_setting(cfg), h);
 }
 
+/* ---- hooks under an allocation failure with a handler that does not return (C16 x C13): whatever the failing call
+ * had done when the handler jumped away, every hook ever attached is released exactly once by the time the
+ * configuration has been destroyed ---- */
+static int hk_released[16], hk_attached[16];
+static void hk_destructor(void *h) { long id = (long)(size_t)h; if (id > 0 && id < 16) hk_released[id]++; }
+static void hk_attach(config_setting_t *s, long id) { if (s) { config_setting_set_hook(s, (void *)(size_t)id); hk_attached[id] = 1; } }
+static long hooks_scenario(long k)
+{
+  config_t cfg; config_setting_t *r, *g, *l, *s; int i; long n = 0;
+  memset(hk_released, 0, sizeof hk_released); memset(hk_attached, 0, sizeof hk_attached);
+  in_lib = 0; fail_at = -1; use_longjmp = 1;
+  config_init(&cfg); config_set_destructor(&cfg, hk_destructor); config_set_option(&cfg, CONFIG_OPTION_ALLOW_OVERRIDES, 1);
+  r = config_root_setting(&cfg);
+  hk_attach(config_setting_add(r, "a", CONFIG_TYPE_INT), 1); hk_attach(config_setting_add(r, "b", CONFIG_TYPE_STRING), 2);
+  hk_attach(config_setting_add(r, "c", CONFIG_TYPE_INT), 3);
+  g = config_setting_add(r, "g", CONFIG_TYPE_GROUP); hk_attach(g, 4);
+  hk_attach(config_setting_add(g, "x", CONFIG_TYPE_INT), 5); hk_attach(config_setting_add(g, "y", CONFIG_TYPE_FLOAT), 6);
+  l = config_setting_add(r, "l", CONFIG_TYPE_LIST); hk_attach(config_setting_add(l, NULL, CONFIG_TYPE_INT), 7);
+  for (i = 0; i < 14; i++) config_setting_add(l, NULL, CONFIG_TYPE_INT);       /* the next additions cross a chunk boundary */
+  if (setjmp(escape) == 0) {
+    counter = 0; fail_at = k; in_lib = 1;
+    s = config_setting_add(r, "a", CONFIG_TYPE_STRING);                        /* overrides a hooked member */
+    in_lib = 0; hk_attach(s, 8); in_lib = 1;
+    config_setting_add(g, "x", CONFIG_TYPE_GROUP);                             /* ... inside a group */
+    config_setting_set_string_elem(l, -1, "tail"); config_setting_set_string_elem(l, -1, "tail2");
+    config_setting_add(r, "g", CONFIG_TYPE_INT);                               /* overrides a hooked subtree */
+    config_setting_remove(r, "c");
+    config_read_string(&cfg, "b = 1; b = 2; n = (1, { m = 1; m = 2; });");     /* clears everything, overrides while parsing */
+    in_lib = 0; n = counter;
+  }
+  in_lib = 0; fail_at = -1;
+  config_destroy(&cfg);
+  return n;
+}
+
 int config_include_dir_check(config_t *cfg) { return config_get_include_dir(cfg) && !strcmp(config_get_include_dir(cfg), "other"); }
 
 int main(int argc, char **argv)
@@ -133,6 +168,26 @@ int main(int argc, char **argv)
       else if (WEXITSTATUS(st) != 0) printf("crash exit%d\n", WEXITSTATUS(st));
       fflush(stdout);
       continue;
+    }
+    if (sscanf(line, "allochooks %ld", &k) == 1) {
+      if (k < 0) { long n = hooks_scenario(-1); use_longjmp = 0; printf("count %ld\n", n); fflush(stdout); continue; }
+      else {
+        pid_t pid; int st;
+        fflush(stdout);
+        pid = fork();
+        if (pid == 0) {
+          int h, bad = 0;
+          hooks_scenario(k);
+          for (h = 1; h < 16; h++) if (hk_attached[h] && hk_released[h] != 1) { printf("hooks BAD hook=%d released=%d times\n", h, hk_released[h]); bad = 1; break; }
+          if (!bad) printf("hooks ok\n");
+          fflush(stdout); _exit(0);
+        }
+        waitpid(pid, &st, 0);
+        if (WIFSIGNALED(st)) printf("crash %d\n", WTERMSIG(st));
+        else if (WEXITSTATUS(st) != 0) printf("crash exit%d\n", WEXITSTATUS(st));
+        fflush(stdout);
+        continue;
+      }
     }
     if (sscanf(line, "alloccase %d %ld", &sc, &k) != 2 || sc < 0 || sc > 6) { printf("bad-op\n"); fflush(stdout); continue; }
     if (k < 0) {
